@@ -3,16 +3,19 @@ package main
 import (
 	"fmt"
 	"os"
-	"regexp"
 
-	"github.com/coregx/coregex"
+	"github.com/coregx/coregex/meta"
+	"github.com/coregx/coregex/nfa"
 )
 
 func main() {
-	p := os.Args[1]
-	a, b := coregex.MustCompile(p), regexp.MustCompile(p)
-	for _, h := range os.Args[2:] {
-		fmt.Println("coregex", a.MatchString(h), a.FindStringSubmatchIndex(h), a.FindAllStringIndex(h, -1))
-		fmt.Println("stdlib ", b.MatchString(h), b.FindStringSubmatchIndex(h), b.FindAllStringIndex(h, -1))
+	for _, p := range os.Args[1:] {
+		e, err := meta.Compile(p)
+		if err != nil {
+			fmt.Println(p, err)
+			continue
+		}
+		n, _ := nfa.NewDefaultCompiler().Compile(p)
+		fmt.Printf("%-34q %-24s S=%d limit=%d\n", p, e.Strategy(), n.States(), (32<<20)/n.States())
 	}
 }
